@@ -11,7 +11,6 @@ use crate::run::{err_class, run_search, step_budget, Alg};
 use crate::searchcase::{gen_edge_od, gen_vertex_od, independent_edge_costs, route_cost};
 use crate::world::{gen_world, WorldParams};
 use serde_json::json;
-use std::sync::Arc;
 
 fn case(tier: Tier, rng: &mut Rng, rep: &mut Report) {
     let mut p = WorldParams::default();
@@ -28,7 +27,15 @@ fn case(tier: Tier, rng: &mut Rng, rep: &mut Report) {
     let world = gen_world(rng, &p);
     let net = world.net.clone();
     let query = json!({});
-    let graph = Arc::new(net.to_graph());
+    let via_files = rng.chance(0.2);
+    let graph = match crate::gen::net::graph_for(&net, via_files) {
+        Ok(g) => g,
+        Err(e) => {
+            rep.violate("graph-load|error", format!("the network files written by the generator were refused: {e}"), || net.to_json());
+            return;
+        }
+    };
+    rep.count(if via_files { "graphs_loaded_from_files" } else { "graphs_built_in_memory" }, 1);
     let si = match world.si(graph, &query) {
         Ok(s) => s,
         Err(e) => {
